@@ -605,43 +605,51 @@ func main() {
 		perHour = float64(total.Worlds) / searchS * 3600
 	}
 	ev.Coverage = map[string]any{
-		"evaluations":         total.Worlds,
-		"distinct_nontrivial": len(distinct),
-		"rule":                "one evaluation = one simulated world (workload + environment + knobs + schedule) generated from SplitMix64(VERIF_SEED, property, index) and executed under the deterministic scheduler; a world is non-trivial when the scheduler made more than 3 decisions, switched task at least twice, or the solver met a conflict; two worlds are distinct when the FNV-64 hashes of their full event logs (every scheduling decision with task and site, every channel event, every outcome) differ",
-		"samples":             samples,
-		"worlds_per_hour":     int64(perHour),
-		"seeds_per_hour":      int64(perHour),
-		"search_wall_s":       searchS,
-		"build_wall_s":        buildS,
-		"scheduler_decisions": total.Decisions,
-		"context_switches":    total.Switches,
-		"distinct_interleavings": len(distinctSw),
+		"evaluations":                    total.Worlds,
+		"distinct_nontrivial":            len(distinct),
+		"rule":                           "one evaluation = one simulated world (workload + environment + knobs + schedule) generated from SplitMix64(VERIF_SEED, property, index) and executed under the deterministic scheduler; a world is non-trivial when the scheduler made more than 3 decisions, switched task at least twice, or the solver met a conflict; two worlds are distinct when the FNV-64 hashes of their full event logs (every scheduling decision with task and site, every channel event, every outcome) differ",
+		"samples":                        samples,
+		"worlds_per_hour":                int64(perHour),
+		"seeds_per_hour":                 int64(perHour),
+		"search_wall_s":                  searchS,
+		"build_wall_s":                   buildS,
+		"scheduler_decisions":            total.Decisions,
+		"context_switches":               total.Switches,
+		"distinct_interleavings":         len(distinctSw),
 		"distinct_interleavings_measure": "number of distinct hashes of the sequence of (task switched to, site it resumes at) over all worlds with at least two task switches",
-		"yield_steps":         total.Steps,
-		"simulated_time_s":    float64(total.SimNs) / 1e9,
-		"faults_fired":        total.Faults,
-		"probes":              total.Probes,
-		"strategies":          total.Strategies,
-		"task_kinds":          total.TaskKinds,
-		"divergences_not_judged": total.Diverge,
+		"yield_steps":                    total.Steps,
+		"simulated_time_s":               float64(total.SimNs) / 1e9,
+		"faults_fired":                   total.Faults,
+		"probes":                         total.Probes,
+		"strategies":                     total.Strategies,
+		"task_kinds":                     total.TaskKinds,
+		"divergences_not_judged":         total.Diverge,
 		"instrumentation": map[string]any{
 			"sites_total":   len(b.report.Sites),
 			"sites_reached": len(sites),
-			"by_kind":       b.report.Counts,
-			"knobs":         b.report.Knobs,
-			"taps":          b.report.Taps,
-			"buggify":       b.report.Buggify,
-			"skipped":       b.report.Skipped,
-			"notes":         b.notes,
+			"sites_reached_ids": func() []int {
+				var ids []int
+				for id := range sites {
+					ids = append(ids, int(id))
+				}
+				sort.Ints(ids)
+				return ids
+			}(),
+			"by_kind": b.report.Counts,
+			"knobs":   b.report.Knobs,
+			"taps":    b.report.Taps,
+			"buggify": b.report.Buggify,
+			"skipped": b.report.Skipped,
+			"notes":   b.notes,
 		},
-		"corpus_worlds_replayed": corpusRun,
+		"corpus_worlds_replayed":          corpusRun,
 		"real_binary_crosschecked_worlds": xchecked,
 		"engine_R_race_detector":          raceInfo,
-		"known_findings_matched": knownSeen,
-		"cut_short_by_wall_cap":  total.CutShort,
-		"workers":                workers,
-		"real_code":              "solver, maxsat, explain, bf and main.go of the tree under test (instrumented copy: added hook calls, map-range and knob rewrites only); Go channels and goroutines",
-		"stubs":                  "clock (testing/synctest fake time), goroutine choice (scheduler), map iteration order, io.Reader arguments (SimReader), file system / argv / exit / stdout (C19), consumers and producers at the API boundary",
+		"known_findings_matched":          knownSeen,
+		"cut_short_by_wall_cap":           total.CutShort,
+		"workers":                         workers,
+		"real_code":                       "solver, maxsat, explain, bf and main.go of the tree under test (instrumented copy: added hook calls, map-range and knob rewrites only); Go channels and goroutines",
+		"stubs":                           "clock (testing/synctest fake time), goroutine choice (scheduler), map iteration order, io.Reader arguments (SimReader), file system / argv / exit / stdout (C19), consumers and producers at the API boundary",
 	}
 	ev.Assumptions = []string{
 		"seeded sampling, not enumeration: a clean run is evidence, not proof",
